@@ -445,6 +445,15 @@ func init() {
 		}
 		return Match{Target: tg, Arms: []Arm{{"Some", bind, b}, {"None", "", g.blk(t, env, f[2])}}}
 	}})
+	// one generic union at two instantiations inside one inferred type (both: T0->T1->Opt<T0>*Opt<T1>), the
+	// second one matched
+	add(prod{name: "generic-union-two-instances", block: true, app: is("string"), mk: func(g *Gen, t Type, env Env2, fuel, pos int) Expr {
+		f := g.split(fuel-1, 3)
+		q := g.freshName("o")
+		rhs := call("both", g.Gen("int", env, f[0], PosExpr), g.Gen("string", env, f[1], PosExpr))
+		m := Match{Target: Var{q}, Arms: []Arm{{"Some", "w", B(Var{"w"})}, {"None", "", g.blk(t, env, f[2])}}}
+		return &Block{Stmts: []Stmt{LetDestr{[]string{"_", q}, rhs}}, Final: m}
+	}})
 	// 11 string match
 	add(prod{name: "match-string-var", rep: true, app: any_, mk: func(g *Gen, t Type, env Env2, fuel, pos int) Expr {
 		f := g.split(fuel-1, 3)
